@@ -597,10 +597,10 @@ def _table_jobs(tier, seed):
         for variant in range(2):
             if tier == 'quick' and n > 1000 and variant == 0:
                 continue
-            keys, cur = [], 0
-            for i in range(n):
-                cur += rng.choice([0, 1, 1, 2, 5])
-                keys.append(cur if i % 7 else cur + 0.0)
+            keys, q = [], 0                      # keys in quarter units; a whole number is planted as int (a workbook
+            for i in range(n):                   # cannot hold a whole float: openpyxl reads 14.0 back as 14)
+                q += rng.choice([0, 4, 4, 8, 20, 2, 1])
+                keys.append(q // 4 if q % 4 == 0 else q / 4)
             if variant == 1:
                 keys[0] = 'key'
                 keys[n // 3] = None
@@ -647,10 +647,11 @@ def _table_jobs(tier, seed):
     #    blank cells inside the range, most recent override wins
     jobs += _override_jobs(tier, rng)
     # S7 seeded random tables: kind, length 1..12, order, duplicates, blanks / header / other-typed cells, placement, width
-    for ti in range(12 if tier == 'quick' else 192):
+    for ti in range(12 if tier == 'quick' else 128):
         n = rng.randint(1, 12)
         if rng.random() < 0.7:
             pool = [rng.randint(-5, 40) if rng.random() < 0.75 else rng.randint(-10, 80) / 4 for _ in range(n)]
+            pool = [int(x) if x == int(x) else x for x in pool]      # a workbook cannot hold a whole float
             filler = ['hdr', None, None, DATE, 'x']
         else:
             pool = [''.join(rng.choice('abcdk') for _ in range(rng.randint(1, 3))) for _ in range(n)]
@@ -852,7 +853,7 @@ def _check_tables(tier, seed):
                      '(thorough); tables of 150 and 1100 rows (101..2500 thorough); two sheets holding the same formula text '
                      'and cross-sheet references; override rounds with Executor.set_cells on the lookup cell AZ300 (beyond '
                      'the used range), key cells, blank rows of the range (14, the last ones beyond the used range), repeated '
-                     f'overrides; {12 if tier == "quick" else 192} seeded random tables (length 1..12, random placement/width); entry-point translation '
+                     f'overrides; {12 if tier == "quick" else 128} seeded random tables (length 1..12, random placement/width); entry-point translation '
                      'through a dependency; one Parser/Executor re-used for three workbooks',
             'rule': 'one evaluation = the value of one formula cell compared with the independent search over the planted '
                     '(or overridden) table; formulas whose input has no clause are not generated',
